@@ -19,6 +19,9 @@ use vh::util;
 
 type Item = (usize, u32); // (pipe, seq)
 
+/// histories that looked stuck for 1.5 s and then moved again (CPU starvation, not a lost wake-up)
+static SLOW_BUT_ALIVE: AtomicUsize = AtomicUsize::new(0);
+
 #[derive(Clone, Copy, Debug, PartialEq, Eq, Hash)]
 enum SendMode {
   Async,
@@ -374,7 +377,26 @@ fn run_history(cfg: &Cfg, seed: u64) -> Option<Outcome> {
       }
       let idle = last_progress.lock().elapsed();
       if idle > util::scaled(Duration::from_millis(1500)) && t0.elapsed() > util::scaled(Duration::from_millis(1600)) {
-        stuck = Some(format!("no progress for {:?}: producers done {}/{}, pushed {}, popped {} (deregistered pipe excluded)", idle, producers_done.load(Ordering::SeqCst), need_done, npushed, npopped));
+        // Suspected. A lost wake-up (or any deadlock) is permanent, a consumer starved of CPU on an oversubscribed
+        // machine is not: confirm by watching for ANY movement (a pop, a push, a producer finishing) for a further
+        // 20 s before calling it stuck. Resumed histories are counted, not judged.
+        let snap = (npushed, npopped, producers_done.load(Ordering::SeqCst));
+        let t1 = Instant::now();
+        let mut moved = false;
+        while t1.elapsed() < util::scaled(Duration::from_secs(20)) {
+          tokio::time::sleep(Duration::from_millis(25)).await;
+          let now = (pushed.lock().iter().filter(|i| Some(i.0) != dp).count(), popped.lock().iter().filter(|i| Some(i.0) != dp).count(), producers_done.load(Ordering::SeqCst));
+          if now != snap {
+            moved = true;
+            break;
+          }
+        }
+        if moved {
+          SLOW_BUT_ALIVE.fetch_add(1, Ordering::SeqCst);
+          *last_progress.lock() = Instant::now();
+          continue;
+        }
+        stuck = Some(format!("no progress for {:?} (confirmed over a further 20 s without any push, pop or producer exit): producers done {}/{}, pushed {}, popped {} (deregistered pipe excluded)", idle + t1.elapsed(), producers_done.load(Ordering::SeqCst), need_done, npushed, npopped));
         break;
       }
       tokio::time::sleep(Duration::from_millis(2)).await;
@@ -500,6 +522,7 @@ fn rpq_layer(rep: &mut Report, args: &Args, rng: &mut Rng) {
     }
   }
   rep.count("distinct_hook_orders_sampled", orders.len() as u64);
+  rep.count("histories_suspected_stuck_that_resumed", SLOW_BUT_ALIVE.load(Ordering::SeqCst) as u64);
 }
 
 /// (miri) a handful of tiny histories meant to be executed by Miri (one shard per -Zmiri-seed): its scheduler preempts
